@@ -160,7 +160,17 @@ def build_universe(seed, tier):
     extra_fns = []
     nh = 10 if tier == "quick" else 60
     for hid in range(nh):
-        h = gen_history(rng, g, hid, extra_fns)
+        if hid == 0:
+            # fixed history "Pad": a repr(C) struct whose added field lands in the tail padding of the older layout
+            # (same size, alignment and offsets of the shared fields on both sides)
+            f_a, f_b = F("f1", I("u32")), F("f2", I("u8"))
+            f_c = F("f3", I("u8"), frm=1, default=("int", 7), mode="val", src="7")
+            f_d = F("f4", I("u16"), frm=2)
+            h = {"id": 0, "edits": [("add", 2, "f3"), ("add", 3, "f4")],
+                 "types": [S("H0V0", [dict(f_a), dict(f_b)], "C"), S("H0V1", [dict(f_a), dict(f_b), dict(f_c)], "C"),
+                           S("H0V2", [dict(f_a), dict(f_b), dict(f_c), dict(f_d)], "C")]}
+        else:
+            h = gen_history(rng, g, hid, extra_fns)
         U_hist.append(h)
         for j, t in enumerate(h["types"]):
             roots.append({"ty": t, "vals": None, "tags": {"hist"}, "hist": (hid, j), "curver": j})
